@@ -9,6 +9,57 @@ EXTENDS Frames
 CONSTANTS RecHdr,     \* bytes of an entry without records (real: 11 + name length; the model uses one value)
           BatchHdr    \* per-record overhead inside an append entry (real: 12)
 
+(* --- planning operators over plain data (used with the model's and with the real constants) --- *)
+
+PersistEffs(f) == << Eff("FL", f, -1, 0, 0), Eff("FS", f, -1, 0, 0), Eff("DS", -1, -1, 0, 0) >>
+
+(* file-system effects of persist_on_policy; OnDelay is not determined by the call sequence *)
+PolicyFsEffs(policy, f) ==
+  CASE policy = "always_flush" -> << Eff("FL", f, -1, 0, 0) >>
+    [] policy = "always_fsync" -> PersistEffs(f)
+    [] OTHER -> <<>>
+
+(* position entries of a GC pass: entry i has lens[i] bytes; a marker <<"PE", i>> precedes its writes *)
+RECURSIVE PosEntriesG(_, _, _, _, _, _)
+PosEntriesG(lens, i, f, off, trk, acc) ==
+  IF i > Len(lens) THEN [effs |-> acc, file |-> f, off |-> off, tracked |-> trk]
+  ELSE LET s == SplitEntry(f, off, lens[i], trk) IN
+         PosEntriesG(lens, i + 1, s.file, s.off, s.tracked, acc \o << <<"PE", i>> >> \o s.effs)
+
+(* files removed by Directory::gc: oldest first, while unreferenced, never the last one *)
+RECURSIVE Deletable(_, _, _)
+Deletable(trk, refs, acc) ==
+  IF Cardinality(trk) < 2 THEN acc
+  ELSE LET f == CHOOSE x \in trk : \A y \in trk : x <= y IN
+         IF f \in refs THEN acc ELSE Deletable(trk \ {f}, refs, Append(acc, f))
+
+GcCan(refs, trk, f) ==
+  Cardinality(trk) >= 2 /\ ~((CHOOSE x \in trk : \A y \in trk : x <= y) \in (refs \cup {f}))
+
+(* run_gc_if_necessary.  refs: files referenced by retained records (after the call's in-memory   *)
+(* update); (f, off): cursor after the call's own entry; lens: the position entries, in the order *)
+(* the HashMap yields the empty queues.  The clone of current_file taken BEFORE the position      *)
+(* entries pins f; the writer itself references the file it ends up in.                           *)
+GcPlanG(refs, trk, f, off, lens, alwaysSync) ==
+  IF ~GcCan(refs, trk, f) THEN [effs |-> <<>>, file |-> f, off |-> off, tracked |-> trk, ran |-> FALSE]
+  ELSE LET pe == PosEntriesG(lens, 1, f, off, trk, <<>>)
+           del == Deletable(pe.tracked, refs \cup {f, pe.file}, <<>>)
+           sync == IF alwaysSync \/ pe.effs # <<>> THEN PersistEffs(pe.file) ELSE <<>>
+       IN [effs |-> pe.effs \o sync \o [i \in 1..Len(del) |-> Eff("UL", del[i], -1, 0, 0)],
+           file |-> pe.file, off |-> pe.off, tracked |-> pe.tracked \ {del[i] : i \in 1..Len(del)}, ran |-> TRUE]
+
+IsFsEff(x) == x[1] \in {"W", "FL", "FS", "DS", "OP", "CR", "SL", "UL"}
+FsOnly(effs) == SelectSeq(effs, IsFsEff)
+
+(* file-system effects of one mutating call, from the pre-state *)
+CallFsPlan(kind, ownLen, f, off, trk, refsAfter, lens, policy, alwaysSync) ==
+  LET own == SplitEntry(f, off, ownLen, trk)
+      gc == GcPlanG(refsAfter, own.tracked, own.file, own.off, lens, alwaysSync)
+  IN CASE kind = "create" -> own.effs \o PersistEffs(own.file)
+       [] kind = "append" -> own.effs \o PolicyFsEffs(policy, own.file)
+       [] kind = "truncate" -> own.effs \o FsOnly(gc.effs) \o PolicyFsEffs(policy, gc.file)
+       [] kind = "delete" -> own.effs \o FsOnly(gc.effs) \o PersistEffs(gc.file)
+
 SeqSumLens(batch) ==
   LET RECURSIVE S(_)
       S(n) == IF n = 0 THEN 0 ELSE S(n - 1) + BatchHdr + batch[n][2]
